@@ -240,6 +240,11 @@ M("c07.oaep.eme.order", "C07", OAEPPY, "        em = b'\\x00' + maskedSeed + mas
 M("c07.oaep.eme.dbmasklen", "C07", OAEPPY, "        dbMask = self._mgf(ros, k-hLen-1)\n        # Step 2f", "        dbMask = self._mgf(ros, k-hLen)\n        # Step 2f", "K-pw|oaep.eme.bytes")
 M("c07.oaep.dec.seedslice", "C07", OAEPPY, "        maskedSeed = em[1:hLen+1]", "        maskedSeed = em[:hLen]", "K-pw|oaep.eme.bytes")
 M("c07.oaep.dec.res", "C07", OAEPPY, "        return db[res:]", "        return db[res+1:]", "K-pw|oaep.eme.bytes")
+EDPY = "lib/Crypto/Signature/eddsa.py"
+M("c04.eddsa.ed448.k.read", "C04", EDPY, "        k_hash = SHAKE256.new(dom4 + R_pk + self._A + PHM).read(114)", "        k_hash = SHAKE256.new(dom4 + R_pk + self._A + PHM).read(64)", "K-pw|eddsa.ed448")
+M("c04.eddsa.ed448.verify.k", "C04", EDPY, "        k_hash = SHAKE256.new(dom4 + signature[:57] + self._A + PHM).read(114)", "        k_hash = SHAKE256.new(dom4 + self._A + signature[:57] + PHM).read(114)", "K-pw|eddsa.ed448")
+M("c04.eddsa.ed25519.sign.r", "C04", EDPY, "        r_hash = SHA512.new(dom2 + self._key._prefix + PHM).digest()", "        r_hash = SHA512.new(self._key._prefix + dom2 + PHM).digest()", "K-pw|eddsa.ed25519")
+M("c04.eddsa.ed25519.cofactor", "C04", EDPY, "        point1 = s * 8 * self._key._curve.G\n        # OPTIMIZE: with double-scalar multiplication, with no SCA\n        # countermeasures because it is public values\n        point2 = 8 * R + k * 8 * self._key.pointQ\n        if point1 != point2:\n            raise ValueError(\"The signature is not authentic\")\n\n    def _verify_ed448", "        point1 = s * 8 * self._key._curve.G\n        # OPTIMIZE: with double-scalar multiplication, with no SCA\n        # countermeasures because it is public values\n        point2 = 8 * R + k * self._key.pointQ\n        if point1 != point2:\n            raise ValueError(\"The signature is not authentic\")\n\n    def _verify_ed448", "K-pw|eddsa.ed25519")
 PSSPY = "lib/Crypto/Signature/pss.py"
 M("c04.emsa.pss.lmask.encode", "C04", PSSPY, "    maskedDB = bchr(bord(maskedDB[0]) & ~lmask) + maskedDB[1:]\n    # Step 12", "    maskedDB = bchr(bord(maskedDB[0]) & (~lmask >> 1)) + maskedDB[1:]\n    # Step 12", "K-pw|pss.emsa.bytes")
 M("c04.emsa.pss.mprime", "C04", PSSPY, "    m_prime = bchr(0)*8 + mhash.digest() + salt\n    # Step 6", "    m_prime = bchr(0)*8 + salt + mhash.digest()\n    # Step 6", "K-pw|pss.emsa.bytes")
